@@ -36,6 +36,13 @@ CLAIMS = {
          "onto fresh nodes preserving ops, hierarchy, child order, metadata, counts and ordered per-port link lists; A and B otherwise unchanged; insert_* wrappers.", "§6 C08"),
  "C15": ("Tracked builder vs explicit-wire twin on symbolic programs (tracked indices symbolic, holes, mixed int/wire arguments, metadata): same tracked "
          "state after every command and the same HUGR node for node, link for link; index discipline of track/untrack.", "§6 C15"),
+ "C10": ("Extension round trip with symbolic descriptions / misc values / bounds / from-params indices / binary flag (field by field, same document up "
+         "to the order of requirement sets); every op def owns and requires its extension for symbolic prior requirement lists; bundled std files vs "
+         "the specification directory and the typed helpers (concrete side conditions, listed as such in evidence).", "§6 C10"),
+ "C11": ("Resolution of type expressions (depth <= 2/3) and custom operations against registries with symbolic membership: resolved iff held, every depth "
+         "reached, nothing invented, wire form / model / bounds / signatures unchanged, idempotent; Hugr.resolve_extensions touches only custom nodes.", "§6 C11"),
+ "C14": ("Every helper-built value expression (depth <= 1/2; int widths, array/list/static-array constants, function constants) checked against a "
+         "transcription of hugr-core's Value::validate / SumType::check_type; Const static port and LoadConstant agree with the reported type.", "§6 C14"),
 }
 NA_PENDING = "not yet built in this session (design in DESIGN.md §6); no claim is made"
 def main():
